@@ -29,13 +29,23 @@ type Runner struct {
 	noDump   bool
 	nops     int
 	hist     map[string]int // proc/status histogram
+	tr       *tracer
 }
 
 func NewRunner(sz uint64, w *bufio.Writer) *Runner {
 	r := &Runner{sz: sz, w: w, du: NewDumper(), handles: make(map[int][]byte), autoIdle: true, hist: make(map[string]int)}
 	r.d = NewSDisk(sz)
 	r.srv = nfs.MakeNfs(r.d)
+	r.attachTracer()
 	return r
+}
+
+func (r *Runner) attachTracer() {
+	if r.tr == nil {
+		r.tr = &tracer{}
+		r.tr.reset()
+	}
+	tracers.Store(r.srv.VerifState(), r.tr)
 }
 
 func (r *Runner) resolve(sym string) []byte {
@@ -123,8 +133,10 @@ func (r *Runner) Idle() { r.srv.VerifShrinker().Shutdown() }
 func (r *Runner) Restart() {
 	r.srv.ShutdownNfs()
 	un := r.srv.Unstable
+	tracers.Delete(r.srv.VerifState())
 	r.srv = nfs.MakeNfs(r.d)
 	r.srv.Unstable = un
+	r.attachTracer()
 }
 
 // Step executes one operation and emits its trace lines.
@@ -162,7 +174,13 @@ func (r *Runner) Step(o Op) Reply {
 	}
 	fmt.Fprintln(r.w, CallLine(o, h, h2))
 	r.w.Flush()
+	if r.tr != nil {
+		r.tr.reset()
+	}
 	rep := r.execWatch(o, h, h2)
+	if r.tr != nil {
+		fmt.Fprintln(r.w, r.tr.line())
+	}
 	if rep.Kind == "handle" && rep.Code == 0 && o.Proc != "lookup" {
 		r.handles[o.Id] = rep.H
 	}
